@@ -23,6 +23,10 @@
 (*   type Schedule                                 __on_schedule::B        *)
 (*   type Validating / Mutating                    __on_validating::B / __on_mutating::B *)
 (*   type Conversion, fromVersion F, toVersion T   __on_conversion::B::F::T, __on_conversion::B *)
+(*     (ASSUMPTION: a group-qualified version "group/version" is written   *)
+(*      "group.version" inside the handler name, F and T each on its own:  *)
+(*      that is the framework's own convention and the only way such a     *)
+(*      handler can be named; the statement itself does not spell it out)  *)
 (*   every context: finally                        __main__                *)
 (*                                                                         *)
 (* A context is identified by its *type* (and event); the binding name is  *)
@@ -52,6 +56,8 @@ CONSTANTS
   SpacedNames,   \* binding names with white space (arrays of one context; only __main__ is definable)
   CommandWords,  \* subset of SpacedNames: one of the words is something the shell resolves (AsIs only)
   StartupKinds,  \* typed kinds that are also generated with a binding that is NAMED "onStartup"
+  ConvGroups1,   \* API groups ("" = none) of fromVersion / toVersion of Conversion contexts, arrays of one context
+  ConvGroups2,   \* same for arrays of two contexts (arrays of three use unqualified versions)
   MaxDefArr,     \* arrays of >= 2 contexts: at most this many handlers defined
   WithEmpty,     \* include the empty array
   WithConfig,    \* include `hook::run --config` runs
@@ -75,15 +81,20 @@ FOREIGN == "<foreign command>"
 
 KubeKinds  == {"Synchronization", "Added", "Modified", "Deleted"}
 TypedKinds == KubeKinds \cup {"Group", "Schedule", "Validating", "Mutating", "Conversion"}
-FROM == "v1"
-TO   == "v2"
+(* API versions: [g |-> group or "", v |-> version]; "group/version" in the document, "group.version" in a name *)
+FROM  == "v1beta1"
+TO    == "v1"
+NoVer == [g |-> "", v |-> ""]
+VDoc(x)  == IF x.g = "" THEN x.v ELSE x.g \o "/" \o x.v
+VName(x) == IF x.g = "" THEN x.v ELSE x.g \o "." \o x.v
 
 (* ------------------------------- contexts ------------------------------ *)
-OnStartupCtx == [kind |-> "onStartup", binding |-> "onStartup", group |-> "", from |-> "", to |-> ""]
+OnStartupCtx == [kind |-> "onStartup", binding |-> "onStartup", group |-> "", from |-> NoVer, to |-> NoVer]
 Typed(k, n)  == [kind |-> k, binding |-> n,
                  group |-> IF k = "Group" THEN "g-" \o n ELSE "",
-                 from  |-> IF k = "Conversion" THEN FROM ELSE "",
-                 to    |-> IF k = "Conversion" THEN TO ELSE ""]
+                 from  |-> NoVer, to |-> NoVer]
+Conv(n, gf, gt) == [kind |-> "Conversion", binding |-> n, group |-> "",
+                    from |-> [g |-> gf, v |-> FROM], to |-> [g |-> gt, v |-> TO]]
 
 (* The JSON document of a context as the operator renders it (docs/src/HOOKS.md "Binding context"). *)
 Doc(c) ==
@@ -97,8 +108,8 @@ Doc(c) ==
     [] c.kind = "Schedule"        -> [binding |-> c.binding, type |-> "Schedule"]
     [] c.kind \in {"Validating", "Mutating"} ->
          [binding |-> c.binding, type |-> c.kind, review |-> [request |-> [uid |-> "u1"]]]
-    [] c.kind = "Conversion"      -> [binding |-> c.binding, type |-> "Conversion", fromVersion |-> c.from,
-                                      toVersion |-> c.to, review |-> [request |-> [uid |-> "u1"]]]
+    [] c.kind = "Conversion"      -> [binding |-> c.binding, type |-> "Conversion", fromVersion |-> VDoc(c.from),
+                                      toVersion |-> VDoc(c.to), review |-> [request |-> [uid |-> "u1"]]]
 
 (* --------------------------- reference semantics ------------------------ *)
 K(b) == "__on_kubernetes::" \o b
@@ -113,7 +124,7 @@ Specific(c) ==    \* the documented names for the context, most specific first, 
     [] c.kind = "Schedule"        -> <<"__on_schedule::" \o c.binding>>
     [] c.kind = "Validating"      -> <<"__on_validating::" \o c.binding>>
     [] c.kind = "Mutating"        -> <<"__on_mutating::" \o c.binding>>
-    [] c.kind = "Conversion"      -> <<"__on_conversion::" \o c.binding \o "::" \o c.from \o "::" \o c.to,
+    [] c.kind = "Conversion"      -> <<"__on_conversion::" \o c.binding \o "::" \o VName(c.from) \o "::" \o VName(c.to),
                                        "__on_conversion::" \o c.binding>>
 
 Candidates(c) == Specific(c) \o <<MAIN>>
@@ -163,7 +174,7 @@ Distractors(c) ==
     [] c.kind = "Schedule"  -> {K(b), "__on_schedule::" \o b \o "x"}
     [] c.kind = "Validating"-> {"__on_mutating::" \o b}
     [] c.kind = "Mutating"  -> {"__on_validating::" \o b}
-    [] c.kind = "Conversion"-> {"__on_conversion::" \o b \o "::" \o c.to \o "::" \o c.from}
+    [] c.kind = "Conversion"-> {"__on_conversion::" \o b \o "::" \o VName(c.to) \o "::" \o VName(c.from)}
 
 Universe(cs) ==
   IF Len(cs) = 1
@@ -171,12 +182,15 @@ Universe(cs) ==
        ELSE Range(Candidates(cs[1])) \cup Distractors(cs[1])
   ELSE UNION {Range(Candidates(cs[k])) : k \in 1..Len(cs)}
 
-Ctxs(kinds, names) == (IF "onStartup" \in kinds THEN {OnStartupCtx} ELSE {})
-                      \cup {Typed(k, n) : k \in kinds \ {"onStartup"}, n \in names}
+Ctxs(kinds, names, cg) ==
+     (IF "onStartup" \in kinds THEN {OnStartupCtx} ELSE {})
+     \cup {Typed(k, n) : k \in kinds \ {"onStartup", "Conversion"}, n \in names}
+     \cup (IF "Conversion" \in kinds THEN {Conv(n, gf, gt) : n \in names, gf \in cg, gt \in cg} ELSE {})
 AllKinds == TypedKinds \cup {"onStartup"}
-C1 == Ctxs(AllKinds, Names1 \cup SpacedNames) \cup Ctxs(StartupKinds, {"onStartup"})
-C2 == Ctxs(Kinds2, Names2) \cup Ctxs(Extra2Kinds, Extra2Names)
-C3 == Ctxs(Kinds3, Names3)
+C1 == Ctxs(AllKinds, Names1, ConvGroups1) \cup Ctxs(AllKinds, SpacedNames, {""})
+      \cup Ctxs(StartupKinds, {"onStartup"}, {""})
+C2 == Ctxs(Kinds2, Names2, ConvGroups2) \cup Ctxs(Extra2Kinds, Extra2Names, {""})
+C3 == Ctxs(Kinds3, Names3, {""})
 
 Arrays == (IF WithEmpty THEN {<<>>} ELSE {})
           \cup {<<c>> : c \in C1} \cup {<<c, d>> : c \in C2, d \in C2}
@@ -266,6 +280,7 @@ MachineIsRun ==
 Class ==
   IF \E k \in 1..Len(ctxs) : Spaced(ctxs[k]) THEN "spaced-name"
   ELSE IF \E k \in 1..Len(ctxs) : NamedStartup(ctxs[k]) THEN "typed-binding-named-onStartup"
+  ELSE IF \E k \in 1..Len(ctxs) : ctxs[k].from.g # "" \/ ctxs[k].to.g # "" THEN "group-version"
   ELSE "plain"
 
 Emit ==
